@@ -66,7 +66,7 @@ def run(ev, vd):
             kinds[rec["k"]] = kinds.get(rec["k"], 0) + 1
             ev.distinct(line, nontrivial=rec.get("n", 0) > 1024)
             if i % 397 == 3:
-                ev.sample({k: v for k, v in rec.items() if k not in ("in", "out")})
+                ev.sample({k: v for k, v in rec.items() if k not in ("in", "out", "pos", "res")})
     ev.cov["records_by_algorithm"] = kinds
     ev.cov["rule"] = ("one record per algorithm call on real pool threads (1..8/16 threads; inputs: hand-picked boundary shapes, "
                       "random words of runs whose lengths straddle the 1024 cut-off, random arrays; partition also under "
@@ -74,7 +74,7 @@ def run(ev, vd):
     bad = tv.read_lines(tr, [g for g, _ in res["rejects"]])
     for g, info in sorted(res["rejects"]):
         rec = json.loads(bad[g])
-        sig = dict(component=rec["k"], op="result", ctl=rec.get("ctl", 0))
+        sig = dict(component=rec["k"].replace("find_unique", "find_if"), op="result", ctl=rec.get("ctl", 0))
         vd.violation(sig, "ParallelSTL::%s disagrees with its std:: meaning: %s" % (rec["k"], bad[g][:400]), dict(record=rec))
     ev.assumptions += [
         "the third argument of accumulate/map_reduce is the identity of the operation (it is folded in once per thread), so only identities are passed",
